@@ -246,7 +246,19 @@ def rule_d(ctx):
                 if x.id in dom.get(n.id, ()) and x is not n:
                     early += [a for a, kd, _ in attr_reads(x, "self") if a in hist and a != "_inner_iteration"]
             ctx.ob(R, call.qname, "no history attribute is read before the reset guard", not early, str(early), n.stmt)
-    ctx.ob(R, call.qname, "reset() is called when the inner iteration counter is 0", guard_ok, "", call.node)
+    # named contradiction: the reset at counter 0 is made to depend on what earlier calls left on the object (hasattr / a history attribute in a
+    # conjunction with the counter test): at a restart boundary the old history then survives
+    weak = None
+    for iff_ in ast.walk(call.node):
+        if isinstance(iff_, ast.If) and isinstance(iff_.test, ast.BoolOp) and isinstance(iff_.test.op, ast.And) \
+                and any(norm(v_) in ("self._inner_iteration == 0", "0 == self._inner_iteration") for v_ in iff_.test.values) \
+                and any(isinstance(c_, ast.Call) and norm(c_.func) == "self.reset" for s_ in iff_.body for c_ in ast.walk(s_)):
+            extra = [v_ for v_ in iff_.test.values if norm(v_) not in ("self._inner_iteration == 0", "0 == self._inner_iteration")]
+            if any((isinstance(x, ast.Call) and norm(x.func) == "hasattr") or (isinstance(x, ast.Attribute) and isinstance(x.value, ast.Name) and x.value.id == "self" and x.attr.startswith("_")) for v_ in extra for x in ast.walk(v_)):
+                weak = iff_
+    ctx.ob(R, call.qname, "reset() is called when the inner iteration counter is 0", guard_ok,
+           (f"`if {norm(weak.test)[:90]}`: the reset is skipped when the history of earlier calls is still there -- at a restart boundary the acceleration mixes iterates of the previous cycle" if weak is not None else ""),
+           weak or call.node, evidence=weak is not None)
     cnt = [norm(s.value) for s in ast.walk(call.node) if isinstance(s, ast.Assign) and any(self_attr(t) == "_inner_iteration" for t in s.targets)]
     ctx.ob(R, call.qname, "inner counter is iteration or iteration % restart", sorted(cnt) == sorted([it_param, f"{it_param} % self._restart"]) or cnt == [f"{it_param} if self._restart is None else {it_param} % self._restart"]
            or cnt == [f"{it_param} % self._restart if self._restart is not None else {it_param}"], str(cnt), call.node,
